@@ -328,7 +328,6 @@ pub fn eval_history(
                 let r = run_invocation(sc, &mut case, inv, &format!("s{}", idx));
                 idx += 1;
                 let c = InvCtx::new(sc, inv, &r);
-                stats.sim_ticks += r.footer.as_ref().map(|f| f.clock).unwrap_or(0).saturating_sub(inv.plan.clock_start);
                 if stats.sample.is_none() && idx >= 2 {
                     stats.sample = Some(serde_json::json!({
                         "history": sc.steps.iter().map(|s| match s {
